@@ -17,6 +17,8 @@
 //   append <name:hex> <bytes:hex>    the holder of the article lock (another process) appends bytes to the article
 //   finish <id>                      ... is let go: it appends and updates the index from its (stale) copy
 //   expire <id>                      ... is kept waiting until its five attempts are used up: it must fail, nothing changes
+//   redir <dir:hex>                  another tool rewrites the board index (temp + rename, article count refreshed)
+//   zone <location>                  the site's TIME_LOCATION through viper + types.InitConfig
 //   mark <type>                      CommentType(type).Bytes() (validates the regenerated table)
 //   dump                             whole .DIR and every article file
 //
@@ -50,6 +52,7 @@ import (
 	"github.com/Ptt-official-app/go-pttbbs/ptt"
 	"github.com/Ptt-official-app/go-pttbbs/ptttype"
 	"github.com/Ptt-official-app/go-pttbbs/types"
+	"github.com/spf13/viper"
 	"verifharness/internal/bbsenv"
 	"verifharness/internal/hx"
 )
@@ -614,6 +617,7 @@ func judge(line string, c *call, stale bool, classes []string, dir0 []byte, file
 	dir1 := readDir()
 	files1 := readFiles()
 	k := specLookup(dir0, req)
+	judgeT0, judgeT1, retComment = t0, t1, comment
 
 	changedRecs := []int{}
 	if len(dir0) == len(dir1) {
@@ -708,6 +712,25 @@ func judge(line string, c *call, stale bool, classes []string, dir0 []byte, file
 			}
 			if !bytes.Equal(dir0, dir1) {
 				failf("error:state-changed", "the call returned %v but changed index records %v", err, changedRecs)
+			}
+		} else if cls == "err:idx" && stale {
+			// the index was rewritten between the commenter's lookup and its index update: ModifyDirLite refuses the
+			// stale position AFTER the line was appended.  The line stays, the error is returned (noted, not judged);
+			// what is judged: ONE request has appended at most ONE line, nothing else changed
+			label += ":line-stays"
+			if !bytes.Equal(dir0, dir1) {
+				failf("error:state-changed", "the call returned %v but changed index records %v", err, changedRecs)
+			}
+			if len(changedFiles) > 1 {
+				failf("append:one-line", "one request changed %d files: %v", len(changedFiles), changedFiles)
+			}
+			for _, n := range changedFiles {
+				oldC, newC := files0[n], files1[n]
+				if !bytes.HasPrefix(newC, oldC) {
+					failf("append:prefix", "a request that returned %v destroyed bytes of %s", err, n)
+				} else if suf := newC[len(oldC):]; bytes.Count(suf, []byte{'\n'}) != 1 || suf[len(suf)-1] != '\n' {
+					failf("append:one-line", "a request that returned %v appended %d lines to %s", err, bytes.Count(suf, []byte{'\n'}), n)
+				}
 			}
 		} else if !stateSame {
 			failf("error:state-changed", "the call returned %v but changed records %v / files %v", err, changedRecs, changedFiles)
@@ -883,7 +906,7 @@ func doBegin(line string, w []string) {
 	id := w[1]
 	foreign := w[2] == "foreign"
 	c, ok := parseCall(w[3:])
-	if !ok || c.via != "ptt" || !reTicket.MatchString(id) || tickets[id] != nil || len(tickets) >= 8 {
+	if !ok || !reTicket.MatchString(id) || tickets[id] != nil || len(tickets) >= 8 {
 		bad(line)
 		return
 	}
@@ -1043,6 +1066,72 @@ func doFinish(line string, w []string) {
 	judge(line, t.c, true, t.classes, dir0, files0, res, o, t0, t1)
 }
 
+var (
+	judgeT0, judgeT1 int64
+	retComment       []byte
+	curZone          = mustZone("Asia/Taipei") // the built-in default of package types
+)
+
+var zones = []string{"Asia/Taipei", "UTC", "America/New_York", "Pacific/Kiritimati", "Asia/Kathmandu"}
+
+func mustZone(n string) *time.Location {
+	l, err := time.LoadLocation(n)
+	if err != nil {
+		fmt.Fprintln(os.Stderr, "c10: zone", n, err)
+		os.Exit(2)
+	}
+	return l
+}
+
+// doZone: the site's TIME_LOCATION, through the real configuration path (viper value of the ini section
+// [go-pttbbs:types], then types.InitConfig as the server start-up does).
+func doZone(line string, w []string) {
+	if len(w) != 2 || len(tickets) > 0 {
+		bad(line)
+		return
+	}
+	ok := false
+	for _, z := range zones {
+		ok = ok || z == w[1]
+	}
+	if !ok {
+		bad(line)
+		return
+	}
+	viper.Set("go-pttbbs:types.time_location", w[1])
+	if err := types.InitConfig(); err != nil {
+		fatal("types.InitConfig: %v", err)
+	}
+	curZone = mustZone(w[1])
+	run.Op(line, "ok", "zone:"+w[1], false)
+}
+
+// doRedir: another tool (expire, compaction) rewrites the board index: temp file + rename, then the board's
+// article count is refreshed.  Allowed while commenters are held between their lookup and their update.
+func doRedir(line string, w []string) {
+	if len(w) != 2 || !haveReset {
+		bad(line)
+		return
+	}
+	dir, ok := parseHex(w[1])
+	if !ok || len(dir) > 1<<20 {
+		bad(line)
+		return
+	}
+	tmp := dirPath + ".new"
+	if err := os.WriteFile(tmp, dir, 0o644); err != nil {
+		fatal("redir: %v", err)
+	}
+	if err := os.Rename(tmp, dirPath); err != nil {
+		fatal("redir: %v", err)
+	}
+	cache.Shm.Shm.Total[bidWhoAmI.ToBidInStore()] = 0
+	if err := cache.SetBTotal(bidWhoAmI); err != nil {
+		fatal("SetBTotal: %v", err)
+	}
+	run.Op(line, "ok "+stateStr(dir), "index-rewritten", false)
+}
+
 // judgeShape: the appended bytes are one comment line for (type, commenter, text).
 func judgeShape(failf func(string, string, ...interface{}), line []byte, ctype uint64, uid, text, ip []byte) {
 	n := len(line)
@@ -1056,11 +1145,25 @@ func judgeShape(failf func(string, string, ...interface{}), line []byte, ctype u
 		if bytes.IndexByte(text, '\n') >= 0 || bytes.IndexByte(uid, '\n') >= 0 || bytes.IndexByte(cstr(ip), '\n') >= 0 {
 			failf("append:newline-injection", "the file grew by %d lines: the newline(s) of the text %q were written as they are", nl, text)
 		} else {
-			failf("append:shape", "%d newlines in the appended bytes", nl)
+			failf("append:one-line", "one request appended %d lines (%d bytes, the returned line has %d)", nl, len(line), len(retComment))
 		}
 	}
 	if _, ok := maskTime(line); !ok {
 		failf("append:shape", "no MM/DD hh:mm time before the final newline")
+	} else {
+		// the time of the comment in the location the site is CONFIGURED with (the harness's own clock and zone)
+		got := string(line[n-12 : n-1])
+		okTime := false
+		for ts := judgeT0 - 1; ts <= judgeT1+1; ts++ {
+			if time.Unix(ts, 0).In(curZone).Format("01/02 15:04") == got {
+				okTime = true
+				break
+			}
+		}
+		if !okTime {
+			failf("append:time", "the line says %q, the clock in the configured location %s says %q", got, curZone,
+				time.Unix(judgeT1, 0).In(curZone).Format("01/02 15:04"))
+		}
 	}
 	body := line
 	if n >= 12 {
@@ -1110,6 +1213,10 @@ func execLine(line string) {
 		doFinish(line, w)
 	case "append":
 		doAppend(line, w)
+	case "zone":
+		doZone(line, w)
+	case "redir":
+		doRedir(line, w)
 	case "mark":
 		doMark(line, w)
 	case "dump":
